@@ -77,7 +77,7 @@ def process(d, pid, variant):
     r['suite'] = {'all_stable_pass': rc == 0, 'summary': out.strip().splitlines()[-6:]}
     # our check
     checks = os.environ.get('MUT_CHECKS', pid)
-    rc, out = sh(f'MUT_W={W} MUT_ALT={W}-nvc MUT_OUT={W}-out MUT_TGT={W}-nvc-target /verif/tools/mutant_check.sh {patch} {checks}', timeout=5400)
+    rc, out = sh(f'MUT_SRC=head MUT_W={W} MUT_ALT={W}-nvc MUT_OUT={W}-out MUT_TGT={W}-nvc-target /verif/tools/mutant_check.sh {patch} {checks}', timeout=5400)
     r['check'] = out.strip().splitlines()
     r['detected'] = any('DETECTED' in l for l in r['check'])
     r['finished'] = time.ctime()
